@@ -86,6 +86,26 @@ def reset_root(root):
         os.makedirs(root, exist_ok=True)
 
 
+def private_env(scratch, wipe=True):
+    """Own the places where a process could persist state outside the simulated root:
+    HOME, the temp directory and the XDG cache/config/data directories all point into
+    this child's scratch directory, which is emptied first.  A pristine process thus
+    starts with a pristine disk as well."""
+    import tempfile
+    if wipe:
+        reset_root(scratch)
+    home = os.path.join(scratch, "home")
+    tmp = os.path.join(scratch, "tmp")
+    for d in (home, tmp, os.path.join(home, ".cache"), os.path.join(home, ".config"),
+              os.path.join(home, ".local", "share")):
+        os.makedirs(d, exist_ok=True)
+    os.environ.update({"HOME": home, "TMPDIR": tmp, "TEMP": tmp, "TMP": tmp,
+                       "XDG_CACHE_HOME": os.path.join(home, ".cache"),
+                       "XDG_CONFIG_HOME": os.path.join(home, ".config"),
+                       "XDG_DATA_HOME": os.path.join(home, ".local", "share")})
+    tempfile.tempdir = None
+
+
 class Executor:
     def __init__(self, root, scratch, observe="all", messages=True, loose=False):
         self.root = root
@@ -394,6 +414,7 @@ def run_plan(plan, root, scratch, mode="history", only=None, observe="all",
     mode 'history': every step.  mode 'pristine': environment steps before index
     `only`, then step `only` alone."""
     reset_root(root)
+    private_env(scratch)
     os.chdir(root)
     ex = Executor(root, scratch, observe=observe, messages=messages, loose=loose)
     events = []
